@@ -94,6 +94,7 @@ impl CompactionWorker {
                 log::info!("Compaction thread initializing.");
                 let database_state = db_state;
                 let mut task_queue: VecDeque<TaskKind> = VecDeque::new();
+                let mut is_terminated = false;
 
                 loop {
                     log::info!("Compaction thread waiting for tasks.");
@@ -115,6 +116,7 @@ impl CompactionWorker {
                                     "Compaction thread received the termination command. \
                                     Shutting down the thread."
                                 );
+                                is_terminated = true;
                                 break;
                             }
                         }
@@ -150,7 +152,10 @@ impl CompactionWorker {
                         }
                     }
 
-                    if database_state.is_shutting_down.load(Ordering::Acquire) {
+                    // Only the termination command ends the thread. A compaction that was scheduled right
+                    // before the database started to shut down is still in the channel and the thread
+                    // closing the database waits for it to be serviced.
+                    if is_terminated {
                         log::info!("Compaction thread terminated.");
                         break;
                     }
